@@ -1090,6 +1090,99 @@ def gen_seq_spec(rng, k):
     return {"series": series, "ops": out}
 
 
+# ----------------------------------------------------------------------------- Events object: locked sample
+EV_RATES = [("rate", 100.0, "s"), ("rate", 250.0, "s"), ("rate", 1000.0, "s"), ("interval", 1.35, "s"), ("interval", 0.72, "s"),
+            ("interval", 1.0 / 3.0, "s"), ("interval", 10.0, "ms"), ("interval", 4.0, "ms"), ("interval", 1350.0, "ms"),
+            ("interval", 720.0, "ms"), ("interval", 10000.0, "us"), ("interval", 1000.0, "us"), ("interval", 4000.0, "us"),
+            ("rate", 100.0, "ms"), ("rate", 250.0, "us"), ("interval", 0.01, "s"), ("interval", 0.004, "s"), ("interval", 2.2, "s"),
+            ("rate", 2.0, "s"), ("rate", 44100.0, "s")]
+
+
+def gen_events_spec(rng, k):
+    mode, x, u = EV_RATES[k % len(EV_RATES)]
+    N = rng.choice([1500, 2100, 3000, 4200])
+    L, off = rng.randint(3, 8), rng.choice([0, 0, -1, -2])
+    fixed = [29, 57, 58, 113, 114, 115, 116, 201, 1001, 1003, 1025, 2049]
+    pos = sorted({p_ for p_ in fixed if 2 < p_ < N - L - 2} | {rng.randint(3, N - L - 3) for _ in range(45)})
+    return {"mode": mode, "x": float(x).hex(), "u": u, "N": N, "len_et": L, "offset": off, "pos": pos,
+            "ev_unit": rng.choice([u, u, "s", "ms", "us"]), "seed": rng.randint(0, 2 ** 31 - 1)}
+
+
+def run_events(spec):
+    """on-grid events handed over as an Events object: which sample is each event locked to?"""
+    import nitime.timeseries as ts
+    import nitime.analysis as nta
+    rec = {"spec": spec, "errors": [], "locked": []}
+    N, L, off = spec["N"], spec["len_et"], spec["offset"]
+    x = float.fromhex(spec["x"])
+    kw = {"sampling_interval": x} if spec["mode"] == "interval" else {"sampling_rate": x}
+    try:
+        with warnings.catch_warnings():
+            warnings.simplefilter("ignore")
+            ramp = ts.TimeSeries(np.arange(N, dtype=float), time_unit=spec["u"], **kw)
+            dt = int(ramp.sampling_interval)
+            rec["dt"] = dt
+
+            def events(ps_list):
+                t = ts.TimeArray(np.array(ps_list, dtype=np.int64), time_unit="ps")
+                t.convert_unit(spec["ev_unit"])
+                return ts.Events(t)
+            for p_ in spec["pos"]:
+                # one event exactly on sample p_: on the ramp, eta[0] is the index of the first sample of the segment
+                e1 = nta.EventRelatedAnalyzer(ramp, events([p_ * dt]), L, offset=off).eta
+                rec["locked"].append([p_ * dt, int(round(float(np.real(np.ravel(e1.data)[0])))) - off])
+            rs = np.random.RandomState(spec["seed"])
+            noise = ts.TimeSeries(rs.randn(N), time_unit=spec["u"], **kw)
+            EA = nta.EventRelatedAnalyzer(noise, events([p_ * dt for p_ in spec["pos"]]), L, offset=off)
+            rec["eta"], rec["ets"] = np.real(EA.eta.data).tolist(), np.real(EA.ets.data).tolist()
+            rec["eta_obs"] = obs_of(EA.eta)
+            rec["noise"] = noise.data
+            if off >= 0:
+                code = np.zeros(N)
+                code[spec["pos"]] = 1
+                rec["eta_coded"] = np.real(nta.EventRelatedAnalyzer(noise, ts.TimeSeries(code, time_unit=spec["u"], **kw), L, offset=off).eta.data).tolist()
+    except Exception as e:  # noqa
+        rec["errors"].append(("EventRelatedAnalyzer(Events)", "%s: %s" % (type(e).__name__, str(e)[:120])))
+    return rec
+
+
+def events_case(rec):
+    spec = rec["spec"]
+    coq = "(%s, %s)" % (zlit(rec["dt"]), llit(["(%s, %s)" % (zlit(a), zlit(b)) for a, b in rec["locked"]]))
+    return Case(coq, {"kind": "events", "spec": spec}, "events-object/%s=%s %s/events in %s" % (
+        spec["mode"], float.fromhex(spec["x"]), spec["u"], spec["ev_unit"]))
+
+
+def oracle_events(rec):
+    spec = rec["spec"]
+    for name, msg in rec["errors"]:
+        yield Fail("C15/%s/exception" % name, "%s raised %s" % (name, msg), msg, "a result")
+    if "dt" not in rec:
+        return
+    dt, L, off = rec["dt"], spec["len_et"], spec["offset"]
+    for ev_ps, got in rec["locked"]:
+        want = ev_ps // dt            # exact integer picosecond arithmetic
+        if got != want:
+            yield Fail("C15/EventRelatedAnalyzer(Events).eta/locked-sample",
+                       "an event at %d ps (sample %d of a series sampled every %d ps) is locked to sample %d: the segment labelled "
+                       "t = offset*dt starts at data[%d], not data[%d]" % (ev_ps, want, dt, got, got + off, want + off), got, want)
+    if "eta" in rec:
+        d = rec["noise"]
+        seg = np.array([d[p_ + off:p_ + off + L] for p_ in spec["pos"]])
+        for nm, ref in (("eta", seg.mean(0)), ("ets", seg.std(0, ddof=1) / np.sqrt(seg.shape[0]))):
+            if not close(np.array(rec[nm]), ref):
+                yield Fail("C15/EventRelatedAnalyzer(Events).%s/differential" % nm,
+                           "%s over %d on-grid events differs from the statistic of data[idx+offset : idx+offset+len_et], idx = event_ps // interval_ps"
+                           % (nm, len(spec["pos"])), rec[nm][:4], ref[:4].tolist())
+        if "eta_coded" in rec and not close(np.array(rec["eta"]), np.array(rec["eta_coded"])):
+            yield Fail("C15/EventRelatedAnalyzer(Events).eta/vs-coded-series", "eta from the Events object differs from eta from the event-coded series",
+                       rec["eta"][:4], rec["eta_coded"][:4])
+        O = rec["eta_obs"]
+        if O["t0"] != off * dt or O["dt"] != dt or O["n"] != L or O["u"] != spec["u"]:
+            yield Fail("C15/EventRelatedAnalyzer(Events).eta/axis", "axis (t0 %d, dt %d, n %d, %s), required (%d, %d, %d, %s)" % (
+                O["t0"], O["dt"], O["n"], O["u"], off * dt, dt, L, spec["u"]), None, None)
+
+
 # ----------------------------------------------------------------------------- G: keyword table
 def gen_handover():
     """which keywords every analyzer output passes to TimeSeries(...): read off the running code by
@@ -1246,6 +1339,12 @@ def run_one(item, tmp):
         rec = run_concat(item["spec"])
         cases = [concat_case(rec)] if "out" in rec else []
         fails = list(oracle_concat(rec))
+    elif k == "events":
+        rec = run_events(item["spec"])
+        cases = []
+        rec["_ev_case"] = events_case(rec) if "dt" in rec and rec["locked"] else None
+        fails = list(oracle_events(rec))
+        rec.pop("noise", None)
     elif k == "seq":
         rec = run_seq(item["spec"])
         cases = []
@@ -1298,13 +1397,17 @@ def run(ctx):
     items += [{"kind": "concat", "spec": gen_concat_spec(rng, k)} for k in range(ctx.scale(60, 600))]
     items += [{"kind": "read", "spec": gen_read_spec(rng, k)} for k in range(ctx.scale(64, 480))]
     items += [{"kind": "seq", "spec": gen_seq_spec(rng, k)} for k in range(ctx.scale(40, 300))]
+    items += [{"kind": "events", "spec": gen_events_spec(rng, k)} for k in range(ctx.scale(len(EV_RATES), 6 * len(EV_RATES)))]
     tmp = tempfile.mkdtemp(prefix="c15_nifti_")
     all_cases, all_fails = [], []
-    seq_cases = []
+    seq_cases, ev_cases = [], []
     ndiff = nfs = nouts = ncomp = 0
     try:
         for it in items:
             rec, cases, fails = run_one(it, tmp)
+            if rec.get("_ev_case") is not None:
+                rec["_ev_case"].item = it
+                ev_cases.append(rec["_ev_case"])
             if rec.get("_seq_case") is not None:
                 rec["_seq_case"].item = it
                 seq_cases.append(rec["_seq_case"])
@@ -1321,13 +1424,14 @@ def run(ctx):
     bad = check_cases_retry(ctx, "K", HEADER, all_cases, "check", shard=ctx.scale(40, 120), case_type="case")
     sbad = check_cases_retry(ctx, "KS", HEADER, seq_cases, "(fun c => check_seq (fst c) (snd c))", shard=ctx.scale(40, 100),
                              case_type="(list op * list (option float))")
-    bad_items = {id(all_cases[i].item) for i in bad} | {id(seq_cases[i].item) for i in sbad}
+    ebad = check_cases_retry(ctx, "KE", HEADER, ev_cases, "check_evidx", shard=ctx.scale(40, 60), case_type="(Z * list (Z * Z))")
+    bad_items = {id(all_cases[i].item) for i in bad} | {id(seq_cases[i].item) for i in sbad} | {id(ev_cases[i].item) for i in ebad}
     reported = set()
     for f, it in all_fails:
         f.replay = {"entry_point": f.key, "item": it, "model_disagrees": id(it) in bad_items}
         if ctx.report_fail(f, None):
             reported.add(id(it))
-    ctx.extra["model_impl_disagreements"] = len(bad) + len(sbad)
+    ctx.extra["model_impl_disagreements"] = len(bad) + len(sbad) + len(ebad)
     ctx.extra["differential_validation"] = {
         "note": "implementation-vs-implementation (analyzer result vs direct algorithm call on series.data with "
                 "Fs=float(series.sampling_rate); reader output vs the documented pipeline applied by hand): "
